@@ -533,6 +533,9 @@ func (uconn *UConn) ApplyConfig() error {
 	// Hello.ServerName mirrors the server_name extension that is actually sent
 	// (see SNIExtension.writeToUConn); without one no server name is reported.
 	uconn.HandshakeState.Hello.ServerName = ""
+	// Likewise Hello.AlpnProtocols (initialised from Config.NextProtos) is the list the
+	// server's choice is checked against: it must be what ALPNExtension puts on the wire.
+	uconn.HandshakeState.Hello.AlpnProtocols = nil
 	for _, ext := range uconn.Extensions {
 		err := ext.writeToUConn(uconn)
 		if err != nil {
